@@ -127,3 +127,350 @@ Lemma literal_ops_refuted : exists t r,
   parse_filter_literal t = Some r /\ parse_filter t = None /\
   r_rest r = [(s_or, RAEq [100; 101; 114] (ROConst [98]))].
 Proof. exists glued_text. eexists. split; [vm_compute; reflexivity|]. split; vm_compute; reflexivity. Qed.
+
+(* ---- print then parse ------------------------------------------------------ *)
+Lemma alpha_facts : forall c, is_alpha c = true ->
+  is_ws c = false /\ (64 =? c) = false /\ (c =? 34) = false /\ (c =? 39) = false /\ (c =? 9) = false.
+Proof.
+  intros c H. unfold is_alpha in H. unfold is_ws.
+  apply orb_true_iff in H. destruct H as [H|H]; apply andb_true_iff in H; destruct H as [H1 H2];
+    apply N.leb_le in H1; apply N.leb_le in H2;
+    repeat split; repeat (rewrite (proj2 (N.eqb_neq _ _)) by lia); reflexivity.
+Qed.
+
+Lemma skip_go_nonws : forall p c s, is_ws c = false -> skip_go p (c :: s) = (p, c :: s).
+Proof. intros p c s H. cbn. rewrite H. reflexivity. Qed.
+
+Lemma strip_prefix_app : forall w r, strip_prefix w (w ++ r) = Some r.
+Proof. induction w as [|a w IH]; intros r; cbn; [reflexivity|]. rewrite N.eqb_refl. apply IH. Qed.
+
+Lemma take_alpha_app : forall v r, forallb is_alpha v = true ->
+  (r = [] \/ exists c r', r = c :: r' /\ is_alpha c = false) -> take_alpha (v ++ r) = (v, r).
+Proof.
+  induction v as [|c v IH]; intros r Hv Hr; cbn.
+  - destruct Hr as [->|(c & r' & -> & Hc)]; cbn; [reflexivity|]. rewrite Hc. reflexivity.
+  - cbn in Hv. apply andb_true_iff in Hv. destruct Hv as [Hc Hv]. rewrite Hc. rewrite (IH r Hv Hr). reflexivity.
+Qed.
+
+(* a leading blank changes nothing but the previous character *)
+Lemma lit_space : forall w p s, lit w (p, 32 :: s) = lit w (Some 32, s).
+Proof. intros. unfold lit, skipw. cbn. reflexivity. Qed.
+Lemma word_space : forall p s, word (p, 32 :: s) = word (Some 32, s).
+Proof. intros. unfold word, skipw. cbn. reflexivity. Qed.
+Lemma quoted1_space : forall q p s, quoted1 q (p, 32 :: s) = quoted1 q (Some 32, s).
+Proof. intros. unfold quoted1, skipw. cbn. reflexivity. Qed.
+Lemma p_var_space : forall p s, p_var (p, 32 :: s) = p_var (Some 32, s).
+Proof. intros. unfold p_var. rewrite !lit_space, word_space. reflexivity. Qed.
+Lemma p_quoted_space : forall p s, p_quoted (p, 32 :: s) = p_quoted (Some 32, s).
+Proof. intros. unfold p_quoted. rewrite !quoted1_space. reflexivity. Qed.
+
+Definition stops (r : str) : Prop := r = [] \/ exists r', r = 32 :: r'.
+Lemma stops_alpha : forall r, stops r -> r = [] \/ exists c r', r = c :: r' /\ is_alpha c = false.
+Proof. intros r [->|(r' & ->)]; [left; reflexivity|right; exists 32, r'; split; reflexivity]. Qed.
+
+Lemma p_var_print : forall v r p, wf_var v -> stops r -> exists p', p_var (p, v ++ r) = Some (v, (p', r)).
+Proof.
+  intros v r p [->|[->|[Hne Ha]]] Hr.
+  - eexists. unfold p_var, lit. cbn. reflexivity.
+  - eexists. unfold p_var, lit. cbn. reflexivity.
+  - destruct v as [|c v]; [congruence|]. cbn in Ha. apply andb_true_iff in Ha. destruct Ha as [Hc Hv].
+    destruct (alpha_facts c Hc) as (Hws & H64 & _).
+    eexists. unfold p_var, lit, word, skipw. cbn [fst snd app].
+    rewrite (skip_go_nonws _ _ _ Hws). cbn [strip_prefix s_state s_name]. rewrite H64.
+    change (c :: v ++ r) with ((c :: v) ++ r).
+    rewrite (take_alpha_app (c :: v) r); [reflexivity| cbn; rewrite Hc, Hv; reflexivity | apply stops_alpha; exact Hr].
+Qed.
+
+Lemma take_body_print : forall s r, wf_str s -> take_body 34 (s ++ 34 :: r) = Some (s, r).
+Proof.
+  induction s as [|c s IH]; intros r H; cbn.
+  - reflexivity.
+  - unfold wf_str in H. cbn in H. apply andb_true_iff in H. destruct H as [Hc Hs].
+    unfold plain_char in Hc. apply negb_true_iff in Hc. apply orb_false_iff in Hc. destruct Hc as [Hc H9].
+    apply orb_false_iff in Hc. destruct Hc as [Hc H13]. apply orb_false_iff in Hc. destruct Hc as [H34 H10].
+    rewrite H34, H10, H13. cbn. rewrite (IH r Hs). reflexivity.
+Qed.
+
+Lemma p_quoted_print : forall s r p, wf_str s -> p_quoted (p, pr_quoted s ++ r) = Some (s, (Some 34, r)).
+Proof.
+  intros s r p H. unfold p_quoted, quoted1, skipw, pr_quoted. cbn.
+  rewrite <- app_assoc. cbn. rewrite (take_body_print s r H). reflexivity.
+Qed.
+
+Arguments pr_quoted : simpl never.
+
+Lemma pr_more_length : forall l, (length l <= length (pr_more l))%nat.
+Proof.
+  induction l as [|s l IH]; cbn; [lia|]. rewrite !app_length. lia.
+Qed.
+
+Lemma more_strings_print : forall l fuel r, Forall wf_str l -> (length l <= fuel)%nat ->
+  more_strings fuel (Some 34, pr_more l ++ 93 :: r) = (l, (Some 34, 93 :: r)).
+Proof.
+  induction l as [|s l IH]; intros fuel r Hl Hf.
+  - destruct fuel; cbn; reflexivity.
+  - destruct fuel as [|f]; [cbn in Hf; lia|]. inversion Hl; subst.
+    cbn [more_strings pr_more]. unfold lit at 1, skipw. cbn [fst snd app skip_go is_ws].
+    cbn [N.eqb orb strip_prefix last_of fold_left].
+    replace (44 :: 32 :: pr_quoted s ++ pr_more l) with ([44; 32] ++ pr_quoted s ++ pr_more l) by reflexivity.
+    cbn. rewrite p_quoted_space. rewrite <- app_assoc.
+    rewrite (p_quoted_print s (pr_more l ++ 93 :: r) (Some 32) H1).
+    rewrite (IH f r H2); [reflexivity|cbn in Hf; lia].
+Qed.
+
+Arguments p_var : simpl never.
+Arguments p_quoted : simpl never.
+Arguments p_strlist : simpl never.
+Arguments lit : simpl never.
+Arguments keyword : simpl never.
+
+Lemma lit_here : forall c w p r, is_ws c = false ->
+  lit (c :: w) (p, (c :: w) ++ r) = Some (last_of (c :: w) p, r).
+Proof.
+  intros c w p r H. unfold lit, skipw. cbn [fst snd app]. rewrite (skip_go_nonws _ _ _ H).
+  change (c :: w ++ r) with ((c :: w) ++ r). rewrite strip_prefix_app. reflexivity.
+Qed.
+Lemma lit_sp : forall c w p r, is_ws c = false ->
+  lit (c :: w) (p, 32 :: (c :: w) ++ r) = Some (last_of (c :: w) (Some 32), r).
+Proof. intros. rewrite lit_space. apply lit_here. assumption. Qed.
+Lemma lit_fail : forall c w p d r, is_ws d = false -> (c =? d) = false -> lit (c :: w) (p, d :: r) = None.
+Proof.
+  intros c w p d r H Hcd. unfold lit, skipw. cbn [fst snd]. rewrite (skip_go_nonws _ _ _ H).
+  cbn. rewrite Hcd. reflexivity.
+Qed.
+Lemma lit_fail_sp : forall c w p d r, is_ws d = false -> (c =? d) = false -> lit (c :: w) (p, 32 :: d :: r) = None.
+Proof. intros. rewrite lit_space. apply lit_fail; assumption. Qed.
+
+Lemma p_strlist_print : forall s l r p, wf_str s -> Forall wf_str l ->
+  p_strlist (p, pr_quoted s ++ pr_more l ++ 93 :: r) = Some (s :: l, (Some 34, 93 :: r)).
+Proof.
+  intros s l r p Hs Hl. unfold p_strlist. rewrite (p_quoted_print s _ p Hs). cbn [snd].
+  rewrite more_strings_print; [reflexivity|assumption|].
+  rewrite app_length. pose proof (pr_more_length l). lia.
+Qed.
+
+Lemma p_var_quote_none : forall p s r, p_var (p, 32 :: pr_quoted s ++ r) = None.
+Proof. intros. unfold p_var, lit, word, skipw, pr_quoted. cbn. reflexivity. Qed.
+
+Lemma stops_cons32 : forall r, stops (32 :: r).
+Proof. intros. right. eexists. reflexivity. Qed.
+
+Lemma pr_list_cons : forall s l, pr_list (s :: l) = 91 :: pr_quoted s ++ pr_more l ++ [93].
+Proof. reflexivity. Qed.
+
+Lemma p_member_print : forall kw mk v s l r p, wf_var v -> wf_str s -> Forall wf_str l ->
+  (exists c w, kw = c :: w /\ is_ws c = false) ->
+  exists p', p_member kw mk (p, v ++ 32 :: kw ++ 32 :: pr_list (s :: l) ++ r) = Some (mk v (s :: l), (p', r)).
+Proof.
+  intros kw mk v s l r p Hv Hs Hl (c & w & -> & Hc).
+  destruct (p_var_print v (32 :: (c :: w) ++ 32 :: pr_list (s :: l) ++ r) p Hv (stops_cons32 _)) as [p1 E1].
+  eexists. unfold p_member. rewrite E1.
+  rewrite (lit_sp c w p1 _ Hc). rewrite pr_list_cons.
+  replace (32 :: (91 :: pr_quoted s ++ pr_more l ++ [93]) ++ r)
+    with (32 :: [91] ++ (pr_quoted s ++ pr_more l ++ 93 :: r)).
+  2:{ cbn. rewrite <- !app_assoc. reflexivity. }
+  rewrite (lit_sp 91 [] _ _ eq_refl).
+  rewrite (p_strlist_print s l r _ Hs Hl).
+  change (93 :: r) with ([93] ++ r). rewrite (lit_here 93 [] _ r eq_refl). reflexivity.
+Qed.
+
+Lemma p_atom_print : forall a r p, wf_atom a -> stops r ->
+  exists p', p_atom (p, pr_atom a ++ r) = Some (a, (p', r)).
+Proof.
+  intros a r p Ha Hr. destruct a as [v [w|s]|v src|v l|v l]; cbn [wf_atom] in Ha.
+  - (* v = w *)
+    destruct Ha as [Hv Hw]. unfold pr_atom. rewrite <- !app_assoc. cbn [app].
+    destruct (p_var_print v (32 :: 61 :: 32 :: w ++ r) p Hv (stops_cons32 _)) as [p1 E1].
+    destruct (p_var_print w r (Some 32) Hw Hr) as [p2 E2].
+    exists p2. unfold p_atom, p_eq. rewrite E1.
+    change (32 :: 61 :: 32 :: w ++ r) with (32 :: [61] ++ (32 :: w ++ r)).
+    rewrite (lit_sp 61 [] p1 _ eq_refl). rewrite p_var_space, E2. reflexivity.
+  - (* v = "s" *)
+    destruct Ha as [Hv Hs]. unfold pr_atom. rewrite <- !app_assoc. cbn [app].
+    destruct (p_var_print v (32 :: 61 :: 32 :: pr_quoted s ++ r) p Hv (stops_cons32 _)) as [p1 E1].
+    eexists. unfold p_atom, p_eq. rewrite E1.
+    change (32 :: 61 :: 32 :: pr_quoted s ++ r) with (32 :: [61] ++ (32 :: pr_quoted s ++ r)).
+    rewrite (lit_sp 61 [] p1 _ eq_refl). rewrite p_var_quote_none, p_quoted_space.
+    rewrite (p_quoted_print s r _ Hs). reflexivity.
+  - (* v ~ "src" *)
+    destruct Ha as [Hv Hs]. unfold pr_atom. rewrite <- !app_assoc. cbn [app].
+    destruct (p_var_print v (32 :: 126 :: 32 :: pr_quoted src ++ r) p Hv (stops_cons32 _)) as [p1 E1].
+    eexists. unfold p_atom, p_eq, p_regex. rewrite E1.
+    rewrite (lit_fail_sp 61 [] p1 126 _ eq_refl eq_refl).
+    change (32 :: 126 :: 32 :: pr_quoted src ++ r) with (32 :: [126] ++ (32 :: pr_quoted src ++ r)).
+    rewrite (lit_sp 126 [] p1 _ eq_refl). rewrite p_quoted_space.
+    rewrite (p_quoted_print src r _ Hs). reflexivity.
+  - (* v in [...] *)
+    destruct Ha as (Hv & Hne & Hl). destruct l as [|s l]; [congruence|]. inversion Hl; subst.
+    assert (E : pr_atom (RAIn v (s :: l)) ++ r = v ++ 32 :: s_in ++ 32 :: pr_list (s :: l) ++ r).
+    { unfold pr_atom. rewrite <- !app_assoc. cbn [app]. rewrite <- !app_assoc. reflexivity. }
+    rewrite E.
+    destruct (p_var_print v (32 :: s_in ++ 32 :: pr_list (s :: l) ++ r) p Hv (stops_cons32 _)) as [p1 E1].
+    destruct (p_member_print s_in RAIn v s l r p Hv H1 H2) as [p' E2].
+    { exists 105, [110]. split; reflexivity. }
+    exists p'. unfold p_atom, p_eq, p_regex. rewrite E1.
+    match goal with |- context [lit [61] ?st] =>
+      assert (F1 : lit [61] st = None) by (apply (lit_fail_sp 61 [] p1 105); reflexivity) end.
+    match goal with |- context [lit [126] ?st] =>
+      assert (F2 : lit [126] st = None) by (apply (lit_fail_sp 126 [] p1 105); reflexivity) end.
+    rewrite F1, F2, E2. reflexivity.
+  - (* v not in [...] *)
+    destruct Ha as (Hv & Hne & Hl). destruct l as [|s l]; [congruence|]. inversion Hl; subst.
+    assert (E : pr_atom (RANotIn v (s :: l)) ++ r = v ++ 32 :: s_notin ++ 32 :: pr_list (s :: l) ++ r).
+    { unfold pr_atom. rewrite <- !app_assoc. cbn [app]. rewrite <- !app_assoc. reflexivity. }
+    rewrite E.
+    destruct (p_var_print v (32 :: s_notin ++ 32 :: pr_list (s :: l) ++ r) p Hv (stops_cons32 _)) as [p1 E1].
+    destruct (p_member_print s_notin RANotIn v s l r p Hv H1 H2) as [p' E2].
+    { exists 110, [111; 116; 32; 105; 110]. split; reflexivity. }
+    exists p'. unfold p_atom, p_eq, p_regex. rewrite E1.
+    match goal with |- context [lit [61] ?st] =>
+      assert (F1 : lit [61] st = None) by (apply (lit_fail_sp 61 [] p1 110); reflexivity) end.
+    match goal with |- context [lit [126] ?st] =>
+      assert (F2 : lit [126] st = None) by (apply (lit_fail_sp 126 [] p1 110); reflexivity) end.
+    rewrite F1, F2. unfold p_member at 1. rewrite E1.
+    match goal with |- context [lit s_in ?st] =>
+      assert (F3 : lit s_in st = None) by (apply (lit_fail_sp 105 [110] p1 110); reflexivity) end.
+    rewrite F3, E2. reflexivity.
+Qed.
+
+Lemma p_atom_space : forall p s, p_atom (p, 32 :: s) = p_atom (Some 32, s).
+Proof. intros. unfold p_atom, p_eq, p_regex, p_member. rewrite !p_var_space. reflexivity. Qed.
+
+Lemma keyword_sp : forall w p r, wf_op w ->
+  exists p', keyword w (p, 32 :: w ++ 32 :: r) = Some (p', 32 :: r).
+Proof. intros w p r [->| ->]; eexists; unfold keyword, skipw; cbn; reflexivity. Qed.
+Lemma keyword_and_on_or : forall p r, keyword s_and (p, 32 :: s_or ++ r) = None.
+Proof. intros. unfold keyword, skipw. cbn. reflexivity. Qed.
+Lemma p_op_end : forall p, p_op keyword (p, []) = None.
+Proof. intros. unfold p_op, keyword, skipw. cbn. reflexivity. Qed.
+
+Lemma pr_rest_stops : forall l, stops (pr_rest l).
+Proof. intros [|[op a] l]; [left; reflexivity|right; eexists; reflexivity]. Qed.
+Lemma pr_rest_length : forall l, (length l <= length (pr_rest l))%nat.
+Proof.
+  induction l as [|[op a] l IH]; cbn; [lia|]. rewrite app_length. cbn. rewrite !app_length. lia.
+Qed.
+
+Definition wf_step (oa : str * ratom) : Prop := wf_op (fst oa) /\ wf_atom (snd oa).
+
+Lemma more_atoms_print : forall l fuel p, Forall wf_step l -> (length l <= fuel)%nat ->
+  exists p', more_atoms keyword fuel (p, pr_rest l) = (l, (p', [])).
+Proof.
+  induction l as [|[op a] l IH]; intros fuel p Hl Hf.
+  - exists p. destruct fuel; cbn [more_atoms pr_rest]; [reflexivity|]. rewrite p_op_end. reflexivity.
+  - destruct fuel as [|f]; [cbn in Hf; lia|]. inversion Hl as [|x y [Hop Ha] Hl']; subst. cbn [fst snd] in Hop, Ha.
+    cbn [pr_rest more_atoms].
+    destruct (keyword_sp op p (pr_atom a ++ pr_rest l) Hop) as [p1 Ek].
+    destruct (p_atom_print a (pr_rest l) (Some 32) Ha (pr_rest_stops l)) as [p2 Ea].
+    destruct (IH f p2 Hl') as [p3 Em]; [cbn in Hf; lia|].
+    exists p3.
+    pose proof (keyword_and_on_or p (32 :: pr_atom a ++ pr_rest l)) as Eno.
+    pose proof (p_atom_space p1 (pr_atom a ++ pr_rest l)) as Esp.
+    unfold p_op. unfold str, pst in *.
+    destruct Hop as [-> | ->].
+    + rewrite Ek, Esp, Ea, Em. reflexivity.
+    + rewrite Eno, Ek, Esp, Ea, Em. reflexivity.
+Qed.
+
+(* no tab in what is printed, so expandtabs leaves it alone *)
+Definition notab (s : str) : Prop := forallb (fun c => negb (c =? 9)) s = true.
+Lemma notab_app : forall a b, notab a -> notab b -> notab (a ++ b).
+Proof. intros a b Ha Hb. unfold notab in *. rewrite forallb_app, Ha, Hb. reflexivity. Qed.
+Lemma notab_cons : forall c s, (c =? 9) = false -> notab s -> notab (c :: s).
+Proof. intros c s Hc Hs. unfold notab in *. cbn. rewrite Hc, Hs. reflexivity. Qed.
+Lemma notab_nil : notab [].
+Proof. reflexivity. Qed.
+Lemma notab_var : forall v, wf_var v -> notab v.
+Proof.
+  intros v [->|[->|[_ Ha]]]; [reflexivity|reflexivity|].
+  induction v as [|c v IH]; [reflexivity|]. cbn in Ha. apply andb_true_iff in Ha. destruct Ha as [Hc Hv].
+  apply notab_cons; [apply (alpha_facts c Hc)|apply IH; exact Hv].
+Qed.
+Lemma notab_str : forall s, wf_str s -> notab s.
+Proof.
+  induction s as [|c s IH]; intros H; [reflexivity|]. unfold wf_str in H. cbn in H.
+  apply andb_true_iff in H. destruct H as [Hc Hs]. apply notab_cons; [|apply IH; exact Hs].
+  unfold plain_char in Hc. apply negb_true_iff in Hc. apply orb_false_iff in Hc. tauto.
+Qed.
+Lemma notab_quoted : forall s, wf_str s -> notab (pr_quoted s).
+Proof.
+  intros s H. unfold pr_quoted. apply notab_cons; [reflexivity|].
+  apply notab_app; [apply notab_str; exact H|reflexivity].
+Qed.
+Lemma notab_more : forall l, Forall wf_str l -> notab (pr_more l).
+Proof.
+  induction l as [|s l IH]; intros H; [reflexivity|]. inversion H; subst. cbn [pr_more].
+  apply notab_cons; [reflexivity|]. apply notab_cons; [reflexivity|].
+  apply notab_app; [apply notab_quoted; assumption|apply IH; assumption].
+Qed.
+Lemma notab_list : forall l, Forall wf_str l -> notab (pr_list l).
+Proof.
+  intros [|s l] H; [reflexivity|]. inversion H; subst. cbn [pr_list].
+  apply notab_cons; [reflexivity|]. apply notab_app; [apply notab_quoted; assumption|].
+  apply notab_app; [apply notab_more; assumption|reflexivity].
+Qed.
+Lemma notab_atom : forall a, wf_atom a -> notab (pr_atom a).
+Proof.
+  intros a Ha. destruct a as [v [w|s]|v src|v l|v l]; cbn [wf_atom pr_atom] in *.
+  - destruct Ha. apply notab_app; [apply notab_var; assumption|].
+    apply notab_app; [reflexivity|apply notab_var; assumption].
+  - destruct Ha. apply notab_app; [apply notab_var; assumption|].
+    apply notab_app; [reflexivity|apply notab_quoted; assumption].
+  - destruct Ha. apply notab_app; [apply notab_var; assumption|].
+    apply notab_app; [reflexivity|apply notab_quoted; assumption].
+  - destruct Ha as (Hv & _ & Hl). apply notab_app; [apply notab_var; assumption|].
+    apply notab_cons; [reflexivity|]. apply notab_app; [reflexivity|].
+    apply notab_cons; [reflexivity|]. apply notab_list; assumption.
+  - destruct Ha as (Hv & _ & Hl). apply notab_app; [apply notab_var; assumption|].
+    apply notab_cons; [reflexivity|]. apply notab_app; [reflexivity|].
+    apply notab_cons; [reflexivity|]. apply notab_list; assumption.
+Qed.
+Lemma notab_rest : forall l, Forall wf_step l -> notab (pr_rest l).
+Proof.
+  induction l as [|[op a] l IH]; intros H; [reflexivity|]. inversion H as [|x y [Hop Ha] Hl']; subst.
+  cbn [fst snd] in Hop, Ha. cbn [pr_rest]. apply notab_cons; [reflexivity|].
+  apply notab_app; [destruct Hop as [-> | ->]; reflexivity|].
+  apply notab_cons; [reflexivity|]. apply notab_app; [apply notab_atom; assumption|apply IH; assumption].
+Qed.
+Lemma expandtabs_notab : forall s col, notab s -> expandtabs s col = s.
+Proof.
+  induction s as [|c s IH]; intros col H; [reflexivity|]. unfold notab in H. cbn in H.
+  apply andb_true_iff in H. destruct H as [Hc Hs]. apply negb_true_iff in Hc.
+  cbn [expandtabs]. rewrite Hc. destruct ((c =? 10) || (c =? 13)); rewrite (IH _ Hs); reflexivity.
+Qed.
+
+(* every well-formed expression has a text that createFilter reads back as that expression *)
+Theorem print_parse : forall r, wf_expr r -> parse_filter (pr_expr r) = Some r.
+Proof.
+  intros [a l] [Ha Hl]. cbn [r_first r_rest] in Ha, Hl.
+  assert (Hl' : Forall wf_step l) by exact Hl.
+  unfold parse_filter, parse_with, pr_expr. cbn [r_first r_rest].
+  rewrite expandtabs_notab by (apply notab_app; [apply notab_atom; assumption|apply notab_rest; assumption]).
+  destruct (p_atom_print a (pr_rest l) None Ha (pr_rest_stops l)) as [p1 Ea].
+  destruct (more_atoms_print l (length (pr_rest l)) p1 Hl' (pr_rest_length l)) as [p2 Em].
+  unfold str, pst in *. rewrite Ea. cbn [snd]. rewrite Em. reflexivity.
+Qed.
+
+(* the hypotheses of print_parse are satisfiable by an expression with every kind of test *)
+Example print_parse_ex :
+  let r := {| r_first := RAEq [120] (ROConst [97; 32; 98]);
+              r_rest := [(s_and, RAIn s_state [[68; 79; 78; 69]; [69]]);
+                         (s_or, RANotIn [109] [[97]]);
+                         (s_and, RARegex s_name [94; 97; 46; 42; 36]);
+                         (s_or, RAEq [97; 110; 100] (ROVar [111; 114]))] |} in
+  wf_expr r /\ parse_filter (pr_expr r) = Some r.
+Proof.
+  cbv zeta. split; [|vm_compute; reflexivity].
+  assert (W : forall v, v <> [] -> forallb is_alpha v = true -> wf_var v) by (intros; right; right; split; assumption).
+  split; cbn [r_first r_rest].
+  - split; [apply W; [discriminate|reflexivity]|reflexivity].
+  - repeat apply Forall_cons; try apply Forall_nil; split; cbn [fst snd wf_atom].
+    + left; reflexivity.
+    + split; [left; reflexivity|]. split; [discriminate|]. repeat constructor.
+    + right; reflexivity.
+    + split; [apply W; [discriminate|reflexivity]|]. split; [discriminate|]. repeat constructor.
+    + left; reflexivity.
+    + split; [right; left; reflexivity|reflexivity].
+    + right; reflexivity.
+    + split; apply W; try discriminate; reflexivity.
+Qed.
